@@ -546,10 +546,9 @@ Definition run_reader_file (implicit_vr : bool) (bits npx n : Z) (tail : list Z)
 (* l_c  : the pixel description of the dataset as it is now (the reader's metadata is the same object)
    l_pd : the PixelData value in the file (never changes)
    l_cache = Some (c0, fs): Image.pixel_array stored in self._pixel_array the frames fs that it
-   decoded when the description was c0 (dtype and shape of the array are those of c0).  The lazy
-   branch of Image.pixel_array returns self._pixel_array as it is: nothing validates or drops it
-   (pydicom's _pixel_id check is only reached on the first call, and only through the
-   AttributeError fallback of Dataset.__getattr__).
+   decoded when the description was c0, and in self._pixel_id the ids of the describing element
+   values (equal ids <-> equal values, as for the in-memory image).  Since the D105 fix the lazy
+   branch of Image.pixel_array drops the array when the ids differ from the current ones.
    Faithful for edits that keep NumberOfFrames, BitsAllocated and the frame size (the offset
    table of the reader is computed once when the file is opened). *)
 Record limg := LImg { l_c : cfmt; l_pd : list Z; l_cache : option (cfmt * list (list Z)) }.
@@ -558,44 +557,66 @@ Inductive lop :=
 | LWhole | LOne (f : Z) (ai : bool) | LBatch (fs : list Z) (ai : bool)
 | LRaw (f : Z) (ai : bool) | LDecodeRaw (f : Z) (ai : bool) | LHeader (c : cfmt).
 
-(* get_stored_frame: answers (description that fixes dtype / shape, values) *)
-Definition lz_one (st : limg) (f : Z) (ai : bool) : res (cfmt * list Z) :=
+(* get_stored_frame with nothing cached: read_frame_raw + decode_frame *)
+Definition lz_fresh_one (c : cfmt) (pd : list Z) (f : Z) (ai : bool) : res (list Z) :=
+  bind (std_index (f_frames (c_fmt c)) f ai) (fun i => frame_lazy_c c pd i).
+(* what pixel_array decodes when nothing (valid) is cached: get_stored_frame(1) for one frame,
+   else get_stored_frames() = np.stack of frames 1..n *)
+Definition lz_fresh_all (c : cfmt) (pd : list Z) : res (list (list Z)) :=
+  let n := f_frames (c_fmt c) in
+  if n =? 1 then rmap (fun a => [a]) (lz_fresh_one c pd 1 false)
+  else match map (fun k => k + 1) (zrange n) with
+       | [] => Err "ValueError"
+       | nums => sequence (map (fun f => lz_fresh_one c pd f false) nums)
+       end.
+
+(* Image.pixel_array, lazy branch *)
+Definition lz_whole (st : limg) : limg * res (list (list Z)) :=
   let c := l_c st in
-  bind (std_index (f_frames (c_fmt c)) f ai) (fun i =>
-    match l_cache st with
-    | None => rmap (pair c) (frame_lazy_c c (l_pd st) i)             (* read_frame_raw + decode_frame *)
-    | Some (c0, fs) =>
-        if f_frames (c_fmt c) =? 1 then Ok (c0, nth 0 fs [])         (* frame = self.pixel_array *)
-        else match nth_error fs (Z.to_nat i) with                    (* self.pixel_array[frame_index] *)
-             | Some a => Ok (c0, a)
-             | None => Err "IndexError"
-             end
-    end).
-
-Fixpoint lz_batch_loop (st : limg) (fs : list Z) (ai : bool) : res (list (cfmt * list Z)) :=
-  match fs with
-  | [] => Ok []
-  | f :: r => bind (lz_one st f ai) (fun a => rmap (cons a) (lz_batch_loop st r ai))
+  let usable := match l_cache st with
+                | Some (c0, fs) => if cfmt_eqb c0 c then Some fs else None    (* _pixel_id != pixel_ids: dropped *)
+                | None => None
+                end in
+  match usable with
+  | Some fs => (st, Ok fs)
+  | None => match lz_fresh_all c (l_pd st) with
+            | Ok fs => (LImg c (l_pd st) (Some (c, fs)), Ok fs)
+            | Err k => (LImg c (l_pd st) None, Err k)
+            end
   end.
-(* np.stack: all frames of one call come from the same source, so they share dtype and shape *)
-Definition lz_batch (st : limg) (fs : list Z) (ai : bool) : res (cfmt * list (list Z)) :=
-  bind (lz_batch_loop st fs ai) (fun l =>
-    match l with
-    | [] => Err "ValueError"
-    | (c0, _) :: _ => Ok (c0, map snd l)
-    end).
 
-Definition lz_whole (st : limg) : limg * res (cfmt * list (list Z)) :=
-  match l_cache st with
-  | Some (c0, fs) => (st, Ok (c0, fs))
-  | None =>
-      let n := f_frames (c_fmt (l_c st)) in
-      let r := if n =? 1 then rmap (fun p => (fst p, [snd p])) (lz_one st 1 false)
-               else lz_batch st (map (fun k => k + 1) (zrange n)) false in
-      match r with
-      | Ok a => (LImg (l_c st) (l_pd st) (Some a), Ok a)
-      | Err k => (st, Err k)
+(* get_stored_frame *)
+Definition lz_one (st : limg) (f : Z) (ai : bool) : limg * res (list Z) :=
+  let c := l_c st in
+  let n := f_frames (c_fmt c) in
+  match std_index n f ai with
+  | Err k => (st, Err k)
+  | Ok i =>
+      match l_cache st with
+      | None => (st, frame_lazy_c c (l_pd st) i)                  (* self._pixel_array is None *)
+      | Some _ =>
+          let p := lz_whole st in                                 (* self.pixel_array / self.pixel_array[frame_index] *)
+          (fst p, bind (snd p) (fun fs =>
+                    if n =? 1 then Ok (nth 0 fs [])
+                    else match nth_error fs (Z.to_nat i) with Some a => Ok a | None => Err "IndexError" end))
       end
+  end.
+
+Fixpoint lz_batch_loop (st : limg) (fs : list Z) (ai : bool) : limg * res (list (list Z)) :=
+  match fs with
+  | [] => (st, Ok [])
+  | f :: r =>
+      let p := lz_one st f ai in
+      match snd p with
+      | Err k => (fst p, Err k)
+      | Ok a => let q := lz_batch_loop (fst p) r ai in (fst q, rmap (cons a) (snd q))
+      end
+  end.
+Definition lz_batch (st : limg) (fs : list Z) (ai : bool) : limg * res (list (list Z)) :=
+  let p := lz_batch_loop st fs ai in
+  match snd p, fs with
+  | Ok _, [] => (fst p, Err "ValueError")       (* np.stack of an empty list *)
+  | _, _ => p
   end.
 
 Definition lz_decode_raw (st : limg) (f : Z) (ai : bool) : res (list Z) :=
@@ -603,16 +624,14 @@ Definition lz_decode_raw (st : limg) (f : Z) (ai : bool) : res (list Z) :=
   bind (std_index (f_frames m) f ai) (fun i =>
     bind (get_raw_frame true m (l_pd st) f ai) (fun raw => decode_native_c (l_c st) i raw)).
 
-Definition vans2 {A} (g : A -> val) (r : res (cfmt * A)) : val :=
-  match r with Ok (c0, a) => VL [meta c0; g a] | Err k => VErr k end.
-
 Definition lstep (st : limg) (o : lop) : limg * val :=
+  let c := l_c st in
   match o with
-  | LWhole => let p := lz_whole st in (fst p, vans2 vz_list2 (snd p))
-  | LOne f ai => (st, vans2 vz_list (lz_one st f ai))
-  | LBatch fs ai => (st, vans2 vz_list2 (lz_batch st fs ai))
-  | LRaw f ai => (st, vres vz_list (get_raw_frame true (c_fmt (l_c st)) (l_pd st) f ai))
-  | LDecodeRaw f ai => (st, vans (l_c st) vz_list (lz_decode_raw st f ai))
+  | LWhole => let p := lz_whole st in (fst p, vans c vz_list2 (snd p))
+  | LOne f ai => let p := lz_one st f ai in (fst p, vans c vz_list (snd p))
+  | LBatch fs ai => let p := lz_batch st fs ai in (fst p, vans c vz_list2 (snd p))
+  | LRaw f ai => (st, vres vz_list (get_raw_frame true (c_fmt c) (l_pd st) f ai))
+  | LDecodeRaw f ai => (st, vans c vz_list (lz_decode_raw st f ai))
   | LHeader c' => (LImg c' (l_pd st) (l_cache st), VNone)
   end.
 
